@@ -121,7 +121,7 @@ def _name_only_restricted(ctx: Ctx, g: Func, a: ast.AST) -> bool:
     return all(dominated(ctx, g, st, none_br) is None for st in fills)
 
 
-def exempt_rule(ctx: Ctx, rule: str) -> None:
+def exempt_rule(ctx: Ctx, rule: str, sites_only: bool = False) -> None:
     """the ext_dep value: only sig=None dependencies reach it; accepted code must not be among them"""
     rep = ctx.report
     prog = ctx.prog
@@ -150,6 +150,8 @@ def exempt_rule(ctx: Ctx, rule: str) -> None:
         rep.bad(rule, f.qname, desc, f.loc(call), bad_sites, "ext-dep-guard", what="qualified names of value-tracked (accepted) objects are hashed into signatures")
     else:
         rep.ok(rule, f.qname, desc + f" ({n_sites} composer call sites)", f.loc(call))
+    if sites_only:
+        return
     # which resolver outcomes build such dependencies: ExternalObject(path) constructed although the path is authorised
     from .roles import resolver_rec as _resolver_rec
     try:
@@ -372,6 +374,19 @@ def run(ctx: Ctx) -> None:
                        "path: a function that loads the path gets the same signature whether it is evaluated inside the pipeline or on its own")
     n9 = registered_with_signature(ctx, "C02.R9")
     rep.floor("C02.R9", n9, 2)
+
+    # ---- R10 / R11: the presence answer that decides re-execution ----------------------------------------------------------------
+    from . import storerules as S_
+    v_ = S_.LocalView(ctx)
+    rep.rule("C02.R10", "as C17.R9: the local store reports a stored blob present whatever its size - a kept function that returns '' or b'' (a zero-length file) is not "
+                        "executed again at every evaluation")
+    n10 = S_.presence_ignores_size(ctx, v_, "C02.R10")
+    rep.floor("C02.R10", n10, 2)
+    from .c16 import default_dirs_agree
+    rep.rule("C02.R11", "as C16.R12: the implicit default store and set_store('local') without directories are one store: naming the default store (e.g. to switch the object "
+                        "cache on) does not hide the results of earlier runs and re-execute the unchanged pipeline")
+    n11 = default_dirs_agree(ctx, v_, "C02.R11")
+    rep.floor("C02.R11", n11, 2)
 
     # ---- R7: committed paths are those of the latest evaluation -------------------------------------------------
     from .c04 import commit_rules
